@@ -63,6 +63,18 @@ func runComplete(p *ProgDef, line string, zsh bool, args []string) *CompObs {
 	}
 	// the target is chosen by ZSHELL alone; the rest of the environment (the login shell in
 	// particular) varies from case to case and must not matter
+	// bash also exports the cursor position; the candidates are for the last word of COMP_LINE
+	switch len(line) % 5 {
+	case 0:
+		os.Setenv("COMP_POINT", "3")
+	case 1:
+		os.Setenv("COMP_POINT", "0")
+	case 2:
+		os.Setenv("COMP_POINT", fmt.Sprint(len(line)))
+	case 3:
+		os.Setenv("COMP_POINT", fmt.Sprint(len(line)/2+1))
+	}
+	defer os.Unsetenv("COMP_POINT")
 	oldShell, hadShell := os.LookupEnv("SHELL")
 	switch len(line) % 4 {
 	case 0:
